@@ -84,6 +84,12 @@ CHECKS["C17"] = dict(
   text="Generated histories of socket/bind/listen/connect/accept/sendto/recvfrom/resolve/close on two linked controllers (up to 150 operations so that the named and dynamic address ranges are exhausted and reused) are checked step by step against an AddrTable model: bind outcome and errno class, address uniqueness, release on last close, resolve and connect-by-name reach exactly the socket bound under the name, datagrams are delivered only to the addressed socket with payload, boundaries and source intact.",
   note=TRUST + "AddrTable model written from the Socket.bind docstring and LLCP 1.3 4.3; leniencies (resolver cache, names in limbo) are stated in the module. Built by a sub-agent, reviewed and re-run by the coordinator.")
 
+CHECKS["C06"] = dict(
+  category="exploration",
+  technique="property-based testing (Hypothesis) over the complete stack: two real ContactlessFrontend.connect(llcp=...) calls on a simulated RF medium under a deterministic virtual scheduler; round-trip/delivered-exactly-once oracle on SNEP put/get and handover",
+  text="Generated link configurations (MIU 128..2175 each side, LTO, aggregation, LR, bit rate, serving side), socket MIU/RW and message sizes around fragment boundaries are run end to end: SnepServer/HandoverServer started in on-connect, client thread on the peer. The server application must see exactly one request, octet for octet (raw request and re-encoded records), the client must get the server's answer; oversize requests/responses must be refused by the protocol's error code and never delivered in part.",
+  note=TRUST + "RF medium, driver and scheduler are simulated (vlib/simdev.py, vsched.py); no frame loss in this check (C04 covers it); secure data transfer unavailable in the sandbox.")
+
 PENDING_REASON = "not claimed yet: its generated-input check (DESIGN.md section 3) is still under construction in this session; nothing is asserted about it"
 
 def main():
